@@ -180,23 +180,43 @@ fn steps_of(nodes: &[Node], id: usize) -> Vec<(Step, usize)> {
     }
 }
 
+/// all one-step paths first (never truncated), then deeper ones depth-first
+/// up to a cap
 fn enumerate_paths(
+    nodes: &[Node],
+    id: usize,
+    depth: usize,
+    out: &mut Vec<(Vec<Step>, usize)>,
+) {
+    for (step, t) in steps_of(nodes, id) {
+        out.push((vec![step], t));
+    }
+    let first = out.clone();
+    let cap = out.len() + 48;
+    for (p, t) in first {
+        let mut prefix = p;
+        deeper(nodes, t, depth - 1, &mut prefix, out, cap);
+    }
+}
+
+fn deeper(
     nodes: &[Node],
     id: usize,
     depth: usize,
     prefix: &mut Vec<Step>,
     out: &mut Vec<(Vec<Step>, usize)>,
+    cap: usize,
 ) {
-    if depth == 0 || out.len() >= 48 {
+    if depth == 0 || out.len() >= cap {
         return;
     }
     for (step, t) in steps_of(nodes, id) {
-        if out.len() >= 48 {
+        if out.len() >= cap {
             return;
         }
         prefix.push(step);
         out.push((prefix.clone(), t));
-        enumerate_paths(nodes, t, depth - 1, prefix, out);
+        deeper(nodes, t, depth - 1, prefix, out, cap);
         prefix.pop();
     }
 }
@@ -348,7 +368,7 @@ pub(crate) fn dump_types(ctx: &mut LowerCtx<'_>) -> Dump {
         };
         let mut paths = vec![];
         let mut all = vec![];
-        enumerate_paths(&nodes, id, 3, &mut vec![], &mut all);
+        enumerate_paths(&nodes, id, 3, &mut all);
         for (p, leaf) in all {
             let proj = projection(&nodes, id, &p);
             let r = guard(|| hooks::location(ctx, ty, proj, refs[leaf]))
